@@ -50,7 +50,7 @@ func genE2E(r *Rng, n int, tier string) []Case {
 			l.lens[0] = l.pl + 7
 			l.total = l.pl + 7
 		}
-		src := r.Pick2("peer", "peer", "web", "both", "web2")
+		src := r.Pick2("peer", "peer", "web", "both", "web2", "web2")
 		if src == "web2" || (src == "web" && r.Chance(35)) {
 			// a lying web seed (same sizes, wrong bytes) next to an honest one; enough pieces for multi-piece ranges
 			// (ranges are numPieces/20 long) and pieces big enough that the source is well into its next piece
@@ -65,8 +65,12 @@ func genE2E(r *Rng, n int, tier string) []Case {
 			}
 		}
 		magnet := r.Chance(25) && src != "web" && src != "web2"
+		seqPct := 40
+		if src == "web2" {
+			seqPct = 15 // sequential mode fetches file tails as single-piece ranges first, which hides range bookkeeping
+		}
 		cases = append(cases, Case{ID: fmt.Sprintf("e2e-%d", i+1), Ops: []string{
-			fmt.Sprintf("e2e pl=%d files=%s seq=%s enc=%s magnet=%s src=%s seed=%d", l.pl, l.filesArg(), b01(r.Chance(40)),
+			fmt.Sprintf("e2e pl=%d files=%s seq=%s enc=%s magnet=%s src=%s seed=%d", l.pl, l.filesArg(), b01(r.Chance(seqPct)),
 				r.Pick2("plain", "prefer", "force"), b01(magnet), src, r.Intn(1<<30))}})
 	}
 	return cases
